@@ -47,7 +47,7 @@ template<class V> void sweep(const char* type, std::true_type) {
     typedef typename V::scalar T;
     typedef typename ExpT<T>::type IT;
     typedef avel::Vector<IT, V::width> IV;
-    if (!opt().thorough) return;
+    if (!opt().sweep) return;
     SameFp<T> feq; SameValue<T> veq; IntEq<IT> ieq;
     fsweep32<V, T>("C12", type, "frexp_mant/all2^32", [](V a) { IV e; return avel::to_array(avel::frexp(a, &e)); }, [](T a, T& o) { int e; o = Libm<T>::frexp(a, &e); return true; }, feq);
     fsweep32<V, IT>("C12", type, "frexp_exp/all2^32", [](V a) { IV e; (void)avel::frexp(a, &e); return avel::to_array(e); },
